@@ -1998,7 +1998,7 @@ def run(ctx: core.Ctx):
     ctx.extra_cov["generated_obligations"] = ("Gen/TracesChecked.lean: one `checkProgram … = true/false := by decide +kernel` per "
                                               f"recorded scenario ({len(verdicts)}), `safe_checked`, `flagged_rejected`, `all_pre`, and a "
                                               "`…_counterexample` per flagged scenario; a failing one fails the build of Props/C09.lean")
-    n = ctx.budget(20, mult=15)
+    n = ctx.budget(20, mult=40)
     _run_variants(ctx, n)
 
 
@@ -2051,13 +2051,14 @@ def replay(ctx: core.Ctx, data: dict) -> int:
     if scn is None:
         print("replay: unknown scenario", c.get("scenario"))
         return 2
-    w = os.path.join(str(ctx.scratch), "replay")
-    rec = record(scn, w)
-    ev = evaluate(rec, w, ctx.thorough)
-    for j, clause, detail, subj, cls in ev.failures:
-        print(f"replay: crash after {j} calls {[list(map(_short, x)) for x in rec.calls[max(0, j - 2):j]]}: {clause}: {detail} [{cls}]")
-        ctx.oracle_fail("replay", {"j": j}, detail, cls)
-    if ev.failures:
+    scn.name = "replay"
+    ctx.known = []     # a replay reports every failure, known or not
+    power = data.get("stream") == "crash.power-loss" or c.get("variant", {}).get("fsync", False) \
+        or str(c.get("scenario", "")).endswith("_fsync")
+    rec, cn, ev, head = run_scenario(ctx, scn, power_loss=power)
+    for f in ctx.oracle_failures:
+        print(f"replay: [{f['stream']}] {f['what'][:300]} [{f['class']}]")
+    if ctx.oracle_failures:
         print(f"VIOLATION property=C09 replay={data.get('_path', '<replayed>')}")
         return 1
     print(f"replay: property holds on all {ev.states} crash states of this scenario")
